@@ -190,7 +190,9 @@ pub fn all_params(mode: &str, thorough: bool, seed: u64) -> Vec<AdvParams> {
     subs.extend(pick(crate::scen_net::all_params(false, seed).iter().map(|p| p.to_json()).collect(), k, o));
     subs.extend(pick(crate::scen_vsock::all_params("random", false, seed).iter().map(|p| p.to_json()).collect(), k, o));
     subs.extend(pick(crate::scen_evq::all_params(false, seed).iter().map(|p| p.to_json()).collect(), k, o));
-    subs.extend(pick(crate::scen_cmd::all_params("main", false, seed).iter().map(|p| p.to_json()).collect(), k, o));
+    // (all sound scenarios: the non-blocking transfer paths are only reached late in a scenario)
+    subs.extend(crate::scen_cmd::all_params("main", false, seed).iter().enumerate()
+        .filter(|(i, p)| p.kind == "sound" || i % k == o % k).map(|(_, p)| p.to_json()));
     let mut v = vec![];
     let mut s = seed.wrapping_mul(69_621);
     let reps = if thorough { 3 } else { 1 };
